@@ -302,11 +302,11 @@ def obligations(tier, seed):
                     Ob(
                         name="int_text_p%d_%s_%s" % (pi, "dot" if tail else "end", typ),
                         params=[("s", "str")],
-                        pre=["len(s) <= %d" % (n if typ is None else 2), "H.is_int_rendering(s)"],
+                        pre=["len(s) <= %d" % ((3 if pi == 2 else n) if typ is None else 2), "H.is_int_rendering(s)"],
                         body="H.int_text(%d, %r, %r, s)" % (pi, tail, typ),
                         witness=("7",),
                         bounds="value text s in -?(0|[1-9][0-9]*), len(s) <= %d, phrase %r, tail %r, declared type %r; both removal modes"
-                        % (n if typ is None else 2, PHRASES[pi], tail, typ),
+                        % ((3 if pi == 2 else n) if typ is None else 2, PHRASES[pi], tail, typ),
                         timeout=120 if tier == "quick" else 600,
                         path_timeout=60,
                         kf=[("KF-C17-negint", "s.startswith('-') and %r is None" % (typ,))],
